@@ -798,6 +798,16 @@ func init() {
 				core = append(core, a)
 				coreMap = append(coreMap, k)
 			}
+			// (every second writing call: the state space of depth 4 over all of them does not fit into memory)
+			var c2 []e1.Call
+			var m2 []int
+			for k := range core {
+				if k%2 == 0 {
+					c2 = append(c2, core[k])
+					m2 = append(m2, coreMap[k])
+				}
+			}
+			core, coreMap = c2, m2
 			translate := func(path []int) []int {
 				out := make([]int, len(path))
 				for i, p := range path {
@@ -812,6 +822,7 @@ func init() {
 				dc := cfg
 				dc.Alphabet = core
 				dc.Depth = 4
+				dc.MaxStates = 400000
 				dc.New = func() *world.World {
 					w := cfg.New()
 					for _, k := range seed {
